@@ -455,8 +455,35 @@ pub struct Trace {
 
 pub const MAX_ITER: u32 = 400;
 
-pub fn run_astvm(truth: &mut Truth, stmts: &[truth::Sp<ast::Stmt>], val: &Valuation, difficulty: u32) -> Trace {
-    let mut vm = AstVm::new().with_max_iterations(MAX_ITER).with_difficulty(difficulty);
+pub fn run_astvm(truth: &mut Truth, stmts: &[truth::Sp<ast::Stmt>], val: &Valuation, difficulty: u32) -> Trace { run_astvm_iter(truth, stmts, val, difficulty, MAX_ITER) }
+
+/// Both sides are AstVm runs of programs that should be equivalent.  If exactly one of them hit the iteration limit, that
+/// side is re-run with ten times the budget (the two forms may count iterations slightly differently); if it still does
+/// not finish while the other side finished within the normal budget, the pair differs in termination
+/// (`compare_traces_term` reports it).
+pub fn run_astvm_pair(truth: &mut Truth, a: &[truth::Sp<ast::Stmt>], b: &[truth::Sp<ast::Stmt>], val: &Valuation, difficulty: u32) -> (Trace, Trace) {
+    let mut ta = run_astvm(truth, a, val, difficulty);
+    let mut tb = run_astvm(truth, b, val, difficulty);
+    let capped = |t: &Trace| t.stopped.as_deref() == Some("iteration-limit");
+    if capped(&ta) && tb.stopped.is_none() { ta = run_astvm_iter(truth, a, val, difficulty, MAX_ITER * 10); if capped(&ta) { ta.stopped = Some("iteration-limit-x10".into()); } }
+    else if capped(&tb) && ta.stopped.is_none() { tb = run_astvm_iter(truth, b, val, difficulty, MAX_ITER * 10); if capped(&tb) { tb.stopped = Some("iteration-limit-x10".into()); } }
+    (ta, tb)
+}
+
+/// `compare_traces` plus the termination clause for pairs produced by `run_astvm_pair`
+pub fn compare_traces_term(a: &Trace, b: &Trace, regs_to_compare: &[i32], cmp_time: bool) -> Option<String> { compare_traces_term_ex(a, b, regs_to_compare, cmp_time, true) }
+
+pub fn compare_traces_term_ex(a: &Trace, b: &Trace, regs_to_compare: &[i32], cmp_time: bool, cmp_real_time: bool) -> Option<String> {
+    for (x, y, who) in [(a, b, "second"), (b, a, "first")] {
+        if x.stopped.is_none() && y.stopped.as_deref() == Some("iteration-limit-x10") {
+            return Some(format!("termination differs: one form completes ({} calls), the {who} form is still running after 10x the iteration budget ({} calls so far)", x.log.len(), y.log.len()));
+        }
+    }
+    compare_traces_ex(a, b, regs_to_compare, cmp_time, cmp_real_time)
+}
+
+pub fn run_astvm_iter(truth: &mut Truth, stmts: &[truth::Sp<ast::Stmt>], val: &Valuation, difficulty: u32, max_iter: u32) -> Trace {
+    let mut vm = AstVm::new().with_max_iterations(max_iter).with_difficulty(difficulty);
     for (&r, v) in val { vm.set_reg(RegId(r), v.to_scalar()); }
     let ctx = truth.ctx();
     let res = catch(|| { vm.run(stmts, ctx); });
